@@ -166,7 +166,7 @@ Lemma run_loop_inv valid s g a pm rest gh :
   (forall g', g' <> g -> gens (fst r) g' = gens s g') /\
   ginv valid (fst r) (gens (fst r) g) (gh_after s gh (snd r)) /\
   (snd r = OStop \/ (exists e, snd r = OExc e) -> Jfin valid (frame_of gh) (pmap (fst r)) (gh_yields gh)) /\
-  (forall e, snd r = OExc e -> e = ValueError /\ exists l, a = Some l /\ attrs_valid valid l = false) /\
+  (forall e, snd r = OExc e -> exists l, a = Some l /\ exc_reason valid l e) /\
   (snd r <> ONone /\ snd r <> OBad /\ (forall l, snd r <> OPids l) /\ (forall b, snd r <> OBool b)) /\
   (forall p ob i, snd r = OYield p ob i -> pmap (fst r) = pmap s).
 Proof.
@@ -204,7 +204,7 @@ Proof.
     split; [intros e H; discriminate|].
     split; [apply Hneq; right; now left|].
     intros; discriminate.
-  - destruct HL as [HF [Hn [He [l [Hl Hbad]]]]].
+  - destruct HL as [HF [Hn [l [Hl Hbad]]]].
     split; [reflexivity|]. split; [exact Hn|]. split; [reflexivity|].
     split; [intros g' Hne; now apply Hother|].
     split.
@@ -212,7 +212,7 @@ Proof.
       split; [split; [apply (f_ysorted _ _ _ _ HF)|apply (f_yok _ _ _ _ HF)]|discriminate]. }
     split; [intros _; exact HF|].
     split.
-    { intros e0 H0. injection H0 as H0. subst e0. split; [exact He|]. exists l. cbn [frame_of f_attrs] in Hl. rewrite Ha in Hl. now split. }
+    { intros e0 H0. injection H0 as H0. subst e0. exists l. cbn [frame_of f_attrs] in Hl. rewrite Ha in Hl. now split. }
     split; [apply Hneq; right; right; left; now exists e|].
     intros; discriminate.
   - split; [reflexivity|]. split; [exact HL|]. split; [reflexivity|].
@@ -279,7 +279,7 @@ Lemma next_inv valid s G g :
   let G' := gupd s (IterNext g) (snd r) G in
   Inv valid (fst r, G') /\
   (forall x, snd r = OExc x ->
-     (x = ValueError /\ exists l, gh_attrs (G g) = Some l /\ attrs_valid valid l = false)
+     (exists l, gh_attrs (G g) = Some l /\ exc_reason valid l x)
      \/ (x = IndexError /\ tbl s = [])) /\
   (gh_done (G g) = false -> gh_done (G' g) = true -> snd r <> OOom -> (tbl s <> [] \/ snd r = OStop) ->
      Jfin valid (frame_of (G' g)) (pmap (fst r)) (gh_yields (G' g))) /\
@@ -304,7 +304,7 @@ Proof.
           eapply ginv_stable; [apply (HI g')| |exact Hn].
           intros p Hp. rewrite Ht. exact Hp. }
       split.
-      { intros x Hx. left. destruct (Hexc x Hx) as [He [l [Hl Hb]]]. split; [exact He|]. exists l.
+      { intros x Hx. left. destruct (Hexc x Hx) as [l [Hl Hb]]. exists l.
         rewrite Hat. now split. }
       split.
       { intros _ Hd Hoom _. rewrite gset_same in *.
@@ -335,7 +335,7 @@ Proof.
         eapply ginv_stable; [apply (HI g')| |exact Hn].
         intros p Hp. rewrite Ht. exact Hp. }
     split.
-    { intros x Hx. left. destruct (Hexc x Hx) as [He [l [Hl Hb]]]. split; [exact He|]. exists l.
+    { intros x Hx. left. destruct (Hexc x Hx) as [l [Hl Hb]]. exists l.
       rewrite Hat. now split. }
     split.
     { intros _ Hd Hoom _. rewrite gset_same in *.
